@@ -13,14 +13,14 @@ RELS = [M + f for f in ('match_past_relations', 'match_future_child', 'match_fut
                         'match_subselectors')]
 HUB = [M + 'match_selectors']
 ENTRY = [M + f for f in ('match', 'select', 'closest', 'filter', 'match_scope')]
-SHARDS = {'match_selectors': 16, 'match_nth': 4, 'match_range': 8, 'match_default': 8, 'extended_language_filter': 8, 'match_past_relations': 4, 'match_future_relations': 4, 'parse_value': 8}
+SHARDS = {'match_selectors': 16, 'match_nth': 4, 'match_range': 8, 'match_default': 8, 'match_lang': 16, 'extended_language_filter': 8, 'match_past_relations': 4, 'match_future_relations': 4, 'parse_value': 8}
 A_PY = 'A-py (E1-E6: Python evaluation semantics assumed by the encoding; ints mathematical)'
 A_BS4 = 'A-bs4 (bs4 object model: parent/contents/sibling links, node kinds, attribute views; accessors side-effect free)'
 A_IR = 'A-ir (IR values are finite and acyclic; matcher contracts quantify over well-formed IR: ir_wf_list)'
 A_SMT = 'A-smt (z3 5.1 / cvc5 1.0.3 answer unsat only when true)'
 A_RE = 'A-re (CPython re accepts exactly the translated language of the patterns involved)'
 OPAQUE_NOTE = ('contracts assumed, not yet discharged by pyvc (their bodies are covered only by the bounded tier): normalize_value, split_namespace, create_fake_parent, '
-               'get_descendants (iframe-skipping walk), match_lang, match_indeterminate, match_dir; '
+               'get_descendants (iframe-skipping walk), match_indeterminate, match_dir; '
                ' termination of the mutual recursion through sub-lists rests on A-ir')
 
 ALL_HTML = ['basic', 'nows', 'multiroot', 'forms', 'ranges', 'lang', 'dir', 'iframe', 'text', 'attrs', 'identical']
@@ -52,3 +52,6 @@ def validate_bs4(ctx):
     return v.sweep(ctx)
 
 CACHE = [M + 'match_default', N + 'get_tag_descendants', 'lemma.C04_cache_snoc_base', 'lemma.C04_cache_snoc_step']
+LANG = [M + 'match_lang', 'lemma.C04_lang_snoc_base', 'lemma.C04_lang_snoc_step']
+A_SINGLE = ('A-bs4-single (language, http-equiv and content attributes hold one string, as every shipped tree builder stores them: '
+            'a builder configured with multi_valued_attributes for them is outside the domain)')
